@@ -66,7 +66,13 @@ class Run:
             # an element that is metadata only (data empty): still an element, only "both empty" means none
             md = payload_bytes(self.k + 1000, b'M' + tag, rng.choice([0, 5, 70]))
             return Payload(b'', md), (md, b'')
-        d = payload_bytes(self.k, tag, rng.choice(SIZES))
+        size = rng.choice(SIZES)
+        if rng.random() < 0.25:
+            # total data length an exact multiple (2..4) of a fragment body size (fragment size 64 / 100, with / without the
+            # 3-byte length prefix), and one byte either side of it
+            total = rng.choice([2, 2, 3, 4]) * rng.choice([55, 58, 91, 94]) + rng.choice([0, 0, 0, -1, 1])
+            size = max(0, total - len(tag))
+        d = payload_bytes(self.k, tag, size)
         md = b'' if rng.random() < 0.6 else payload_bytes(self.k + 1000, b'M' + tag, rng.choice([0, 5, 70, 150]))
         return Payload(d, md), (md, d)
 
